@@ -218,6 +218,32 @@ def run_case(case, ctx):
             x = Fxp(np.array([rng.randint(lox, hix) for _ in range(n)]), fx[0], fx[1], fx[2], raw=True)
             y = Fxp(np.array([rng.randint(loy, hiy) for _ in range(n)]), fy[0], fy[1], fy[2], raw=True)
         do_ops(ctx, x, y)
+        if case['i'] % 4 == 0:
+            # operands with a history: signedness changed on its own, built like= another object with another sign, flags raised by an earlier store
+            x2 = Fxp(np.asarray(x.val), fx[0], fx[1], fx[2], raw=True)
+            try:
+                if np.all(np.asarray(x2.val) >= 0):
+                    x2.resize(signed=not fx[0])
+                x3 = Fxp(abs(x.get_val()) if np.ndim(x.val) == 0 else np.abs(x.get_val()), like=x, signed=False)
+            except Exception:
+                x3 = None
+            do_ops(ctx, x2, y, routes=('operator', 'function'))
+            if x3 is not None:
+                do_ops(ctx, x3, y, routes=('operator',))
+            xf = Fxp(np.asarray(x.val), fx[0], fx[1], fx[2], raw=True)
+            try:
+                xf(float(xf.upper) * 2 + 1)           # saturates: raises its overflow flag
+                xf.set_val(np.asarray(x.val), raw=True)
+            except Exception:
+                pass
+            do_ops(ctx, xf, y, routes=('operator', 'numpy'))
+            if not fx[0] and not fy[0]:
+                try:
+                    d = Fxp(lox, False, fx[1], fx[2], raw=True) - Fxp(hiy, False, fy[1], fy[2], raw=True)   # documented exception: underflow raised
+                    if d.n_word + y.n_word <= MAX_RESULT_WORD:
+                        do_ops(ctx, d, y, ops=('add', 'mul'), routes=('operator',))
+                except Exception:
+                    pass
         return
     if k == 'tree':
         # random expression tree of depth <= 4 over 1..3-bit leaves; the root stays <= 53 bits
